@@ -19,6 +19,14 @@ def run(v, tier):
             text, lemmas = mmgen.database(random.Random(seed), nlemmas=1, zmode=z, deep=True, **kw)
             reqs.append({'cmd': 'mmtr', 'text': text, 'target': 'goal', 'trace': z == 'all' and i % (3 if quick else 2) == 0})
             meta.append({'db': i, 'layout': z})
+    # one rule applied to LARGE terms, every compound step marked: reuse slots numbered well beyond 140 (three-letter words)
+    for i in range(2 if quick else 20):
+        seed = rng.random()
+        depth = 8 if quick or i % 5 else 9          # depth 9: more than 255 marks (the known finding C16-more-marks-than-memory-slots)
+        for z in ('none', 'every', 'all'):
+            text, lemmas = mmgen.big_instance_database(random.Random(seed), zmode=z, depth=depth)
+            reqs.append({'cmd': 'mmtr', 'text': text, 'target': 'goal', 'trace': False})
+            meta.append({'db': f'big{i}', 'layout': z})
     # shipped single-goal benchmarks
     # (the supported fragment: the benchmarks the repository itself translates - a snapshot under proofs/translated or a
     # test in test_translate.py; transfer-goal.mm needs mu-patterns over unconstrained metavariables, which the checker
